@@ -234,6 +234,13 @@ METHODS = ["X", "SX", "CNOT", "CNOT_inv", "ECR", "ECR_inv", "relaxation", "depol
 def perturb(rng, m, args, what):
     """an adversarial neighbour of a call: same angles with another duration, or same durations with other angles"""
     a = list(args)
+    if what == "noise":
+        # same angles and durations, other error probabilities / T1 / T2 (another qubit's calibration on the same gate set)
+        first = {"X": 1, "SX": 1, "single_qubit_gate": 2, "CR": 3, "relaxation": 1, "bitflip": 1, "depolarizing": 1}.get(m, 3)
+        f = rng.choice([0.5, 0.7, 1.6])
+        for i in range(first, len(a)):
+            a[i] = a[i] * f
+        return m, tuple(a)
     if m in ("CNOT", "CNOT_inv", "ECR", "ECR_inv"):
         if what == "duration":
             a[2] = a[2] * rng.choice([2.0, 0.5, 1.5])
@@ -302,8 +309,10 @@ def gen_gate_case(rng, quick):
             m2, a2 = perturb(rng, m, args, "duration"); ev.append(["call", 0, m2, a2])
         elif r < 0.50:
             m2, a2 = perturb(rng, m, args, "angle"); ev.append(["call", 0, m2, a2])
-        elif r < 0.62:
+        elif r < 0.56:
             ev.append(["call", 0, m, args])                         # warm the cache with the very same request
+        elif r < 0.68:
+            m2, a2 = perturb(rng, m, args, "noise"); ev.append(["call", 0, m2, a2])   # same pulse, another qubit's noise values
         elif r < 0.80:
             other = rng.choice([["Gates", rng.choice([0, 1, 2])], ["Scaled", pid, 0.5], ["NoiseFree"], ["standard"], ["numerical"], ["Gates", pid]])
             m2, a2 = (m, args) if rng.random() < 0.5 else perturb(rng, m, args, "duration")
